@@ -8,6 +8,7 @@ import TFV.Properties.Src.OnePointGP
 import TFV.Properties.Src.GrowMut
 import TFV.Properties.Src.PointMut
 import TFV.Properties.Src.Swap
+import TFV.Properties.Src.Grow
 #print axioms TFV.Tree.C08_subtree_wf
 #print axioms TFV.Tree.C08_concat_wf
 #print axioms TFV.Tree.C08_depth_concat
@@ -37,3 +38,6 @@ import TFV.Properties.Src.Swap
 #print axioms TFV.SrcTie.C08_src_point_closed
 #print axioms TFV.SrcTie.C08_src_swap_mutation
 #print axioms TFV.SrcTie.C08_src_swap_closed
+#print axioms TFV.SrcTie.C08_src_full_growing_method
+#print axioms TFV.SrcTie.C08_src_growing_method
+#print axioms TFV.SrcTie.C08_src_init_closed
